@@ -427,6 +427,10 @@ Fixpoint first_leaf (heap : bheap) (h : nat) (ptr : N) : res N :=
 Definition kv_slices_ok (k_size v_size idx : N) : bool :=
   (k_size * (idx + 1) <=? k_size * BTREE_CAPACITY) && (v_size * (idx + 1) <=? v_size * BTREE_CAPACITY).
 
+(* Leaf::from_bytes since the repair of the slice panic: `len: len.min(2 * B - 1)` - a len field above the capacity
+   (memory that is not a node) no longer indexes the key / value arrays out of range *)
+Definition eff_len (n : bnode) : N := N.min (bn_len n) BTREE_CAPACITY.
+
 (* btree.rs:528-558 KVIterator::next iterated until Ok(None).  A handle is (node pointer, height, idx);
    the node content is re-read from the (unchanged) memory.  Yields (node pointer, idx) slots.
    One unit of fuel per turn of the `loop` in next(). *)
@@ -436,7 +440,7 @@ Fixpoint bt_run (fuel : nat) (heap : bheap) (k_size v_size : N) (ptr : N) (h : n
   | O => OutOfFuel
   | S f =>
       n <- make_node heap ptr ;;
-      if idx <? bn_len n then
+      if idx <? eff_len n then
         if kv_slices_ok k_size v_size idx then
           match h with
           | O => bt_run f heap k_size v_size ptr O (idx + 1) (acc ++ [(ptr, idx)])
